@@ -315,6 +315,11 @@ void sqf::fileio::impl_default::add_mapping(std::string_view viewPhysical, std::
     // Create & Cleanse stuff
     auto phys = std::string(viewPhysical);
     std::replace(phys.begin(), phys.end(), '\\', '/');
+    // "dir/" and "dir" name the same root; the resolution below relies on the form without trailing separator
+    while (phys.size() > 1 && phys.back() == '/')
+    {
+        phys.pop_back();
+    }
     auto path_phys = std::filesystem::path(phys);
 
     auto virt = std::string(viewVirtual);
